@@ -242,6 +242,30 @@ type C17Setup struct {
 	Install string `json:"install,omitempty"`
 	// PollMS > 0: file.WithPollInterval(PollMS ms), the fallback poll.
 	PollMS int `json:"poll_ms,omitempty"`
+	// InstallOp (blank-* only): the file is rewritten while SetSource is still
+	// in progress. The source handed to SetSource is a thin wrapper whose
+	// Watch calls the real Watch, then performs this operation (in-place write
+	// or rename-over with new valid content; every watch is in place by then),
+	// waits until the view shows the new content (bounded) and returns.
+	InstallOp *C17Op `json:"install_op,omitempty"`
+}
+
+// counters is the set of document counters used before the first operation.
+func (s C17Setup) counters() map[int]bool {
+	m := map[int]bool{s.Initial.Counter: true}
+	if s.InstallOp != nil {
+		m[s.InstallOp.Doc.Counter] = true
+	}
+	return m
+}
+
+// c17ModelAtStart is the content model after the installation.
+func c17ModelAtStart(s C17Setup) c17Model {
+	m := c17NewModel(s)
+	if s.InstallOp != nil {
+		m.step(*s.InstallOp)
+	}
+	return m
 }
 
 func (s C17Setup) blank() bool { return s.Install == "blank-short" || s.Install == "blank-long" }
@@ -287,6 +311,20 @@ func (s C17Setup) validate() error {
 	}
 	if s.PollMS != 0 && (s.PollMS < 20 || s.PollMS > 50) {
 		return fmt.Errorf("poll interval %d ms", s.PollMS)
+	}
+	if o := s.InstallOp; o != nil {
+		if !s.blank() {
+			return fmt.Errorf("install_op without a Blank install")
+		}
+		if (o.Mech != "inplace" && o.Mech != "rename") || o.Content != "new" || o.Settle || o.GapMS != 0 || o.PauseMS != 0 {
+			return fmt.Errorf("install_op must be an in-place write or a rename-over with new content")
+		}
+		if err := c17ValidDoc(o.Doc); err != nil {
+			return fmt.Errorf("install_op: %v", err)
+		}
+		if o.Doc.Counter == s.Initial.Counter {
+			return fmt.Errorf("install_op: counter reused")
+		}
 	}
 	switch s.Layout {
 	case "direct":
@@ -390,6 +428,13 @@ func genC17Setup(t *rapid.T) C17Setup {
 		s.Link = rapid.SampledFrom([]string{"..data", "..dir"}).Draw(t, "link")
 	case "link":
 		s.Link = rapid.SampledFrom([]string{"same", "sub"}).Draw(t, "link")
+	}
+	if s.blank() && rapid.Bool().Draw(t, "install_op") {
+		s.InstallOp = &C17Op{
+			Mech:    rapid.SampledFrom([]string{"rename", "inplace"}).Draw(t, "install_mech"),
+			Content: "new",
+			Doc:     genC17Doc(t, 500),
+		}
 	}
 	return s
 }
@@ -545,7 +590,7 @@ func genC17Converge(t *rapid.T) C17Case {
 	spare := genC17Doc(t, len(ops)+2)
 	// a history that ends invalid: the last valid content must be new (see
 	// the settle step in Run)
-	m := c17NewModel(s)
+	m := c17ModelAtStart(s)
 	last, endsValid := -1, true
 	for i, o := range ops {
 		if endsValid = m.step(o).valid; endsValid {
@@ -1313,6 +1358,22 @@ func (r *c17Run) beginBurst() {
 	}
 }
 
+// c17LateWriter is the source handed to Blank.SetSource when the case has an
+// install operation: Value and Watch delegate to the file source; once the
+// real Watch has returned (every inotify watch is in place) afterWatch runs.
+type c17LateWriter struct {
+	*file.WatchingSource
+	afterWatch func()
+}
+
+func (l *c17LateWriter) Watch(ctx context.Context, t *dials.Type, wa dials.WatchArgs) error {
+	if err := l.WatchingSource.Watch(ctx, t, wa); err != nil {
+		return err
+	}
+	l.afterWatch()
+	return nil
+}
+
 // c17Start lays out the files and starts dials on them. A non-nil verdict
 // ends the case.
 func c17Start(s C17Setup, gated bool) (*c17Run, *vrt.Verdict) {
@@ -1348,8 +1409,21 @@ func c17Start(s C17Setup, gated bool) (*c17Run, *vrt.Verdict) {
 		// watcher must live exactly as long as the context given to Config.
 		blank := &sourcewrap.Blank{}
 		if d, err = params.Config(ctx, &def, blank); err == nil {
+			r.d = d
+			var src dials.Source = ws
+			if s.InstallOp != nil {
+				src = &c17LateWriter{WatchingSource: ws, afterWatch: func() {
+					// The file changes while SetSource is still busy. Wait
+					// (bounded, nothing is decided here) until the watcher
+					// has delivered the new content, as it would while the
+					// installing goroutine is descheduled.
+					r.w.apply(*s.InstallOp)
+					want := r.w.cur.cfg
+					c17Await(func() bool { return r.viewIs(want) })
+				}}
+			}
 			setCtx, setCancel := context.WithCancel(context.Background())
-			err = blank.SetSource(setCtx, ws)
+			err = blank.SetSource(setCtx, src)
 			if s.Install == "blank-short" {
 				setCancel()
 			} else {
@@ -1374,6 +1448,19 @@ func c17Start(s C17Setup, gated bool) (*c17Run, *vrt.Verdict) {
 		return nil, &v
 	}
 	r.d = d
+	if s.InstallOp != nil {
+		// The file was rewritten after the watcher had started: whatever the
+		// order of events inside SetSource, the view must come to hold the
+		// latest content (ordinary convergence rule).
+		if v := r.awaitView(r.w.cur.cfg, "after the rewrite during SetSource", []C17Op{*s.InstallOp}); v != nil {
+			if v.Status == vrt.StatusViolation {
+				v.Key = "install-stale"
+			}
+			r.finish()
+			return nil, v
+		}
+		return r, nil
+	}
 	if got, want := *d.View(), s.Initial.expect(); got != want {
 		v := vrt.KeyedViolationf("initial-view", "initial view %+v, want %+v", got, want)
 		r.finish()
@@ -1642,6 +1729,9 @@ func c17OpLabels(s C17Setup, ops []C17Op) (bool, []string) {
 	} else {
 		labels = append(labels, "install=direct")
 	}
+	if s.InstallOp != nil {
+		labels = append(labels, "install-op")
+	}
 	if s.PollMS > 0 {
 		labels = append(labels, "poll=on")
 	} else {
@@ -1684,13 +1774,13 @@ func runC17Converge(c C17Case) vrt.Verdict {
 	if len(c.Ops) < 1 || len(c.Ops) > 12 {
 		return vrt.Discardf("malformed case: %d ops", len(c.Ops))
 	}
-	if err := c17ValidOps(c.C17Setup, c.Ops, map[int]bool{c.Initial.Counter: true}, nil); err != nil {
+	if err := c17ValidOps(c.C17Setup, c.Ops, c.C17Setup.counters(), nil); err != nil {
 		return vrt.Discardf("malformed case: %v", err)
 	}
 	// Model the states to find where the trailing invalid stretch begins.
 	valid := make([]bool, len(c.Ops))
 	lastValidOp := -1 // index of the last operation that leaves the file valid (-1: the initial content)
-	m := c17NewModel(c.C17Setup)
+	m := c17ModelAtStart(c.C17Setup)
 	for i, o := range c.Ops {
 		valid[i] = m.step(o).valid
 		if valid[i] {
@@ -1883,6 +1973,9 @@ func TestC17Converge(t *testing.T) {
 			"or as a regular file reached through a symlinked directory (conf -> real, watched path conf/cfg.json: both directory names are one inode and one inotify watch descriptor); " +
 			"a real file.WatchingSource, without the fallback poll or (1 case in 4) WithPollInterval(25 or 40 ms), is given to dials.Config directly or (2 in 5) installed the way ez does it: Config with a sourcewrap.Blank, then Blank.SetSource(file source) " +
 			"with a context of its own that is cancelled as soon as SetSource has returned (blank-short) or only after the release checks (blank-long) - the watcher must live exactly as long as the context given to Config; " +
+			"in half of the Blank installs the file is rewritten while SetSource is still in progress (install_op: the source given to SetSource is a thin wrapper whose Watch calls the real Watch - so every inotify watch is in place -, " +
+			"then performs one in-place write or rename-over with new valid content, waits (bounded, deciding nothing) until the view shows it, and returns); whatever the order of events inside SetSource, " +
+			"the view must then hold the latest content (ordinary convergence rule, key install-stale), and the history starts from there; " +
 			"1..12 operations {rollback: a file with an OLDER modification time is renamed over the config - the backup copy written when those bytes were current (restore / revert / identical content), " +
 			"or for new or malformed content a fresh file whose mtime is set back to 2000-01-01; the view must hold the rolled-back content like after any rename-over; remove the whole watched directory, keep it away for 0/60/150 ms, build the layout again with new content (rmdir), in-place truncate+write, temp+rename-over, ..ts-N/<link> swap or symlink retarget with or without removal of the old directory/target, delete+recreate} " +
 			"each writing new valid content (unique counter), identical bytes, malformed content, the last valid content again (restore) or the valid content before that (revert), with pauses of 0/1/30 ms from the case " +
@@ -1965,7 +2058,7 @@ func runC17Ident(c C17IdentCase) vrt.Verdict {
 	if len(c.Prefix) > 3 || len(c.Repl) < 1 || len(c.Repl) > 3 {
 		return vrt.Discardf("malformed case: %d prefix, %d repl", len(c.Prefix), len(c.Repl))
 	}
-	counters := map[int]bool{c.Initial.Counter: true}
+	counters := c.C17Setup.counters()
 	if err := c17ValidOps(c.C17Setup, c.Prefix, counters, nil); err != nil {
 		return vrt.Discardf("malformed case: prefix %v", err)
 	}
@@ -2099,7 +2192,7 @@ func runC17Release(c C17ReleaseCase) vrt.Verdict {
 	if len(c.Ops) < 1 || len(c.Ops) > 12 || c.CancelAt < 0 || c.CancelAt > len(c.Ops) || !c17Pauses[c.CancelDelayMS] {
 		return vrt.Discardf("malformed case")
 	}
-	if err := c17ValidOps(c.C17Setup, c.Ops, map[int]bool{c.Initial.Counter: true}, nil); err != nil {
+	if err := c17ValidOps(c.C17Setup, c.Ops, c.C17Setup.counters(), nil); err != nil {
 		return vrt.Discardf("malformed case: %v", err)
 	}
 	return c17Guard(func() vrt.Verdict {
